@@ -44,7 +44,9 @@ def fp_value(v, depth=0):
     if slots is not None:
         out = [type(v).__name__]
         for s in slots:
-            if s == '_hash':
+            if s.startswith('_'):
+                # private slots (the precomputed hash, a lazily filled memo) are not part of the value; what they
+                # can break - equality, hashing, pickling, selecting - is checked through behaviour
                 continue
             try:
                 out.append((s, fp_value(getattr(v, s), depth + 1)))
